@@ -263,14 +263,24 @@ def _(c):
 
 
 CLASSES["Sender"].props["sender_task"] = "self._sender_task"
-classmodel("ProducerStop", {"_closed": BOOL, "_sender": Opt(Ref("Sender")), "_message_accumulator": Ref("MessageAccumulator"),
+classmodel("ProducerStop", {"_closed": BOOL, "_stopped_fut": Opt(Fut(NONE)), "_sender": Opt(Ref("Sender")), "_message_accumulator": Ref("MessageAccumulator"),
                             "client": Ref("ClientObj")}, real="aiokafka.producer.producer:AIOKafkaProducer")
 
 
 @contract("aiokafka.producer.producer:AIOKafkaProducer.stop", ["C19", "C02"])
 def _(c):
     c.self_("ProducerStop")
-    c.owns("self._sender", "self._message_accumulator", "self.client", "self._closed", "Sender._sender_task")
+    c.owns("self._sender", "self._message_accumulator", "self.client", "self._closed", "self._stopped_fut", "Sender._sender_task")
+    # C02 "stop() return[s] only after every previously accepted record is resolved ... issued at any point of the run": also a
+    # stop() issued while another one is still flushing. The first call marks the producer closed at once; a later call that
+    # finds the mark has to wait for the call in progress: the mark and the future that call resolves at its end go together
+    c.requires("implies(self._closed, self._stopped_fut is not None)", "a-closed-producer-has-the-future-its-stop-resolves")
+    c.ghost("$waited_for_the_stop_in_progress", BOOL, "False")
+    c.call("create_future", returns=Fut(NONE), post=["fresh(result)", "not result.done()"], note="a new pending future")
+    c.shared("self._stopped_fut")
+    c.ghost("$shielded", Opt(Fut(NONE)), "none_fut()")
+    c.call("asyncio.shield", returns=Fut(NONE), post=["fresh(result)", "implies(result.done(), a0.done())"], ghost={"$shielded": "some_fut(a0)"},
+           note="asyncio.shield(fut): a new outer future that follows fut (done only when fut is); cancelling the outer one does not cancel fut")
     c.ghost("$flush_started", BOOL, "False")
     c.ghost("$sender_closed", BOOL, "False")
     c.ghost("$client_closed", BOOL, "False")
@@ -283,7 +293,7 @@ def _(c):
            note="asyncio.wait([flush, sender task], return_when=FIRST_COMPLETED), no timeout: suspends until the flush or the sender task has finished")
     c.call("self._sender.close", havoc_all=True, raises=["BaseException"], note="Sender.close (under contract)")
     c.call("self.client.close", havoc_all=True, raises=["BaseException"], note="AIOKafkaClient.close: closes every connection")
-    c.modifies("self._closed")
+    c.modifies("self._closed", "self._stopped_fut", "Future.state", "Future.nres")
     c.raises("a-component-failed-to-close-or-cancelled", "BaseException")
     c.hook("before", "create_task", [("set", "$flush_started", "True")])
     c.hook("after-await", "self._sender.close", [("set", "$sender_closed", "True")])
@@ -300,6 +310,11 @@ def _(c):
     c.ensures_internal("a-normal-return-means-everything-was-closed",
                        "self._closed and implies(not old(self._closed), $client_closed"
                        " and (self._sender is None or self._sender._sender_task is None or $sender_closed))")
+    # (awaiting the shield returns when the shield is done; that the stop in progress is over then is the shield's model)
+    c.ensures_internal("a-stop-that-finds-the-producer-closed-waits-for-the-stop-in-progress",
+                       "implies(old(self._closed), $shielded is not None and $shielded == old(self._stopped_fut))")
+    c.ensures("the-first-stop-tells-the-later-ones-when-it-is-over",
+              "implies(not old(self._closed), self._stopped_fut is not None and self._stopped_fut.done())")
     c.replay_fn = lambda model, ob=None: {"script": _PRODUCER_STOP_SCRIPT}
 
 
